@@ -40,35 +40,39 @@ Values == [1..L -> Digits]               \* enumerated only in small models
 Zero   == [i \in 1..L |-> 0]
 
 MaxOf(S) == CHOOSE m \in S : \A n \in S : n <= m
+(* Identity on functions with 1 in their domain.  TLC evaluates [i \in S |-> e] *)
+(* lazily; EXCEPT forces the table to be built once instead of re-evaluating  *)
+(* e on every application (pure performance device).                          *)
+Mat(f) == [f EXCEPT ![1] = f[1]]
 MinI(a, b) == IF a < b THEN a ELSE b
 
 -----------------------------------------------------------------------------
 (* Digit arithmetic = Go int64 arithmetic on the bit pattern.              *)
 
 Dg(x, k)      == x[L-k]                                 \* (x & mask) >> shift
-ClearDg(x, k) == [i \in 1..L |-> IF i = L-k THEN 0   ELSE x[i]]   \* x &^ mask
-FillDg(x, k)  == [i \in 1..L |-> IF i = L-k THEN B-1 ELSE x[i]]   \* x | mask
-FillLow(x, k) == [i \in 1..L |-> IF i > L-k THEN B-1 ELSE x[i]]   \* x | (1<<shift)-1
-ZeroLow(x, k) == [i \in 1..L |-> IF i > L-k THEN 0   ELSE x[i]]   \* (x >> shift) << shift
+ClearDg(x, k) == [x EXCEPT ![L-k] = 0]                                 \* x &^ mask
+FillDg(x, k)  == [x EXCEPT ![L-k] = B-1]                               \* x | mask
+FillLow(x, k) == Mat([i \in 1..L |-> IF i > L-k THEN B-1 ELSE x[i]])   \* x | (1<<shift)-1
+ZeroLow(x, k) == Mat([i \in 1..L |-> IF i > L-k THEN 0   ELSE x[i]])   \* (x >> shift) << shift
 
 (* x + B^k with Go's wrap-around: the carry runs through the digits above  *)
 (* level k and is lost beyond the word.  k = L is `int64(1) << 64 = 0'.     *)
 AddAt(x, k) ==
   LET i  == L - k
       nc == {j \in 1..i : x[j] # B-1}
-  IN IF nc = {} THEN [n \in 1..L |-> IF n <= i THEN 0 ELSE x[n]]
+  IN IF nc = {} THEN Mat([n \in 1..L |-> IF n <= i THEN 0 ELSE x[n]])
      ELSE LET j == MaxOf(nc)
-          IN [n \in 1..L |-> IF n = j THEN x[n] + 1
-                             ELSE IF n > j /\ n <= i THEN 0 ELSE x[n]]
+          IN Mat([n \in 1..L |-> IF n = j THEN x[n] + 1
+                                 ELSE IF n > j /\ n <= i THEN 0 ELSE x[n]])
 
 (* x - B^k with borrow and wrap-around.                                    *)
 SubAt(x, k) ==
   LET i  == L - k
       nb == {j \in 1..i : x[j] # 0}
-  IN IF nb = {} THEN [n \in 1..L |-> IF n <= i THEN B-1 ELSE x[n]]
+  IN IF nb = {} THEN Mat([n \in 1..L |-> IF n <= i THEN B-1 ELSE x[n]])
      ELSE LET j == MaxOf(nb)
-          IN [n \in 1..L |-> IF n = j THEN x[n] - 1
-                             ELSE IF n > j /\ n <= i THEN B-1 ELSE x[n]]
+          IN Mat([n \in 1..L |-> IF n = j THEN x[n] - 1
+                                 ELSE IF n > j /\ n <= i THEN B-1 ELSE x[n]])
 
 Succ(x) == AddAt(x, 0)
 Pred(x) == SubAt(x, 0)
@@ -81,12 +85,12 @@ LexLess(a, b) == \E i \in DOMAIN a : a[i] < b[i] /\ \A j \in 1..(i-1) : a[j] = b
 
 \* x XOR signbit (the "sortableBits" of prefix_coded.go): signed order of x
 \* is the unsigned order of Bias(x)
-Bias(x) == [i \in 1..L |-> IF i = 1 THEN (x[1] + (B \div 2)) % B ELSE x[i]]
+Bias(x) == [x EXCEPT ![1] = (x[1] + (B \div 2)) % B]
 
 SLess(a, b) == LexLess(Bias(a), Bias(b))      \* Go:  a < b   on int64
 SLeq(a, b)  == ~SLess(b, a)
-MaxVal == [i \in 1..L |-> IF i = 1 THEN (B \div 2) - 1 ELSE B-1]  \* math.MaxInt64
-MinVal == [i \in 1..L |-> IF i = 1 THEN B \div 2 ELSE 0]          \* math.MinInt64
+MaxVal == Mat([i \in 1..L |-> IF i = 1 THEN (B \div 2) - 1 ELSE B-1])  \* math.MaxInt64
+MinVal == Mat([i \in 1..L |-> IF i = 1 THEN B \div 2 ELSE 0])          \* math.MinInt64
 
 \* bytes.Compare(a, b) < 0 on terms (possibly of different length)
 BytesLess(a, b) ==
@@ -97,16 +101,16 @@ BytesLeq(a, b) == ~BytesLess(b, a)
 -----------------------------------------------------------------------------
 (* Bits.                                                                   *)
 
-ToBits(x) == [i \in 1..W |->
-                (x[((i-1) \div DB) + 1] \div 2^(DB - 1 - ((i-1) % DB))) % 2]
+ToBits(x) == Mat([i \in 1..W |->
+                (x[((i-1) \div DB) + 1] \div 2^(DB - 1 - ((i-1) % DB))) % 2])
 
 RECURSIVE BinVal(_, _)         \* value of bits f[1..n], f[1] most significant
 BinVal(f, n) == IF n = 0 THEN 0 ELSE 2 * BinVal(f, n-1) + f[n]
 
-FromBits(b) == [n \in 1..L |-> BinVal([j \in 1..DB |-> b[(n-1)*DB + j]], DB)]
+FromBits(b) == Mat([n \in 1..L |-> BinVal([j \in 1..DB |-> b[(n-1)*DB + j]], DB)])
 
 \* clear the low s bits ((x >> s) << s), any s in 0..W-1
-TruncBits(x, s) == FromBits([i \in 1..W |-> IF i > W - s THEN 0 ELSE ToBits(x)[i]])
+TruncBits(x, s) == LET b == ToBits(x) IN FromBits([i \in 1..W |-> IF i > W - s THEN 0 ELSE b[i]])
 
 -----------------------------------------------------------------------------
 (* (ii) numeric/float.go.  A float word is W bits sign | FE exponent bits | *)
@@ -114,7 +118,7 @@ TruncBits(x, s) == FromBits([i \in 1..W |-> IF i > W - s THEN 0 ELSE ToBits(x)[i
 (* the result is read as a two's complement integer.  Int64ToFloat64 is the *)
 (* same involution.                                                         *)
 
-FlipLow(w)         == [i \in 1..W |-> IF i = 1 THEN w[1] ELSE 1 - w[i]]
+FlipLow(w)         == Mat([i \in 1..W |-> IF i = 1 THEN w[1] ELSE 1 - w[i]])
 FloatToSortableB(w) == IF w[1] = 1 THEN FlipLow(w) ELSE w       \* on bits
 SortableToFloatB(w) == IF w[1] = 1 THEN FlipLow(w) ELSE w
 
@@ -124,7 +128,7 @@ SortableToFloat(x) == FromBits(SortableToFloatB(ToBits(x)))
 IsNaNB(w)     == (\A i \in 2..(FE+1) : w[i] = 1) /\ (\E i \in (FE+2)..W : w[i] = 1)
 IsZeroB(w)    == \A i \in 2..W : w[i] = 0
 IsNegZeroB(w) == w[1] = 1 /\ IsZeroB(w)
-MagB(w)       == [i \in 1..(W-1) |-> w[i+1]]
+MagB(w)       == Mat([i \in 1..(W-1) |-> w[i+1]])
 
 (* The meaning of `a < b' on IEEE-754 binary words that are not NaN: the   *)
 (* magnitude bits order magnitudes (subnormals, normals, infinity), the    *)
@@ -139,6 +143,17 @@ FloatLess(x, y) == FloatLessB(ToBits(x), ToBits(y))
 FloatLeq(x, y)  == FloatLess(x, y) \/ x = y
                    \/ (IsZeroB(ToBits(x)) /\ IsZeroB(ToBits(y)))
 FloatOrdinary(x) == ~IsNaNB(ToBits(x)) /\ ~IsNegZeroB(ToBits(x))
+
+(* The same order read directly off the digits (sign = top bit of the top  *)
+(* digit); NumericMC checks it equal to FloatLess on every pair of words.  *)
+NegD(x)  == x[1] >= B \div 2
+MagD(x)  == [x EXCEPT ![1] = x[1] % (B \div 2)]
+FloatLessD(x, y) ==
+  CASE ~NegD(x) /\ ~NegD(y) -> LexLess(MagD(x), MagD(y))
+    [] NegD(x)  /\ NegD(y)  -> LexLess(MagD(y), MagD(x))
+    [] NegD(x)  /\ ~NegD(y) -> ~(MagD(x) = Zero /\ MagD(y) = Zero)
+    [] OTHER                 -> FALSE
+FloatLeqD(x, y) == FloatLessD(x, y) \/ x = y \/ (MagD(x) = Zero /\ MagD(y) = Zero)
 
 -----------------------------------------------------------------------------
 (* (iii) numeric/prefix_coded.go.                                          *)
@@ -172,7 +187,7 @@ DecodeTerm(t) ==
   LET s    == TermShift(t)
       n    == Len(t) - 1
       keep == W - s
-      all  == [p \in 1..(n*G) |-> (t[((p-1) \div G) + 2] \div 2^(G - 1 - ((p-1) % G))) % 2]
+      all  == Mat([p \in 1..(n*G) |-> (t[((p-1) \div G) + 2] \div 2^(G - 1 - ((p-1) % G))) % 2])
       u    == [i \in 1..W |-> IF i <= keep
                               THEN (LET p == n*G - keep + i IN IF p < 1 THEN 0 ELSE all[p])
                               ELSE 0]
